@@ -324,3 +324,144 @@ func (w *WaitGroup) Wait() {
 }
 
 // OnceFunc / OnceValue are not mirrored; the instrumenter rejects any other member of sync.
+
+// Pool mirrors sync.Pool. Under simulation it is a deterministic LIFO free list (sync.Pool may keep
+// or drop any item at any time, so this is one of its legal behaviours and the one that recycles most).
+type Pool struct {
+	New   func() any
+	real  sync.Pool
+	items []any
+}
+
+func (p *Pool) Get() any {
+	s := simrt.S()
+	if s == nil {
+		p.real.New = p.New
+		return p.real.Get()
+	}
+	if !s.Ending() {
+		s.Point(simrt.KSync, "Pool.Get")
+	}
+	if n := len(p.items); n > 0 {
+		x := p.items[n-1]
+		p.items = p.items[:n-1]
+		return x
+	}
+	if p.New != nil {
+		return p.New()
+	}
+	return nil
+}
+
+func (p *Pool) Put(x any) {
+	s := simrt.S()
+	if s == nil {
+		p.real.Put(x)
+		return
+	}
+	if x == nil {
+		return
+	}
+	if !s.Ending() {
+		s.Point(simrt.KSync, "Pool.Put")
+	}
+	p.items = append(p.items, x)
+}
+
+// Map mirrors sync.Map (every operation is a scheduling point; Range iterates a snapshot in
+// insertion order, which is deterministic).
+type Map struct {
+	real sync.Map
+	keys []any
+	vals map[any]any
+}
+
+func (m *Map) pt(site string) *simrt.Sim {
+	s := simrt.S()
+	if s != nil && !s.Ending() {
+		s.Point(simrt.KSync, site)
+	}
+	return s
+}
+
+func (m *Map) Load(key any) (any, bool) {
+	if s := m.pt("Map.Load"); s == nil {
+		return m.real.Load(key)
+	}
+	v, ok := m.vals[key]
+	return v, ok
+}
+
+func (m *Map) Store(key, value any) {
+	if s := m.pt("Map.Store"); s == nil {
+		m.real.Store(key, value)
+		return
+	}
+	if m.vals == nil {
+		m.vals = map[any]any{}
+	}
+	if _, ok := m.vals[key]; !ok {
+		m.keys = append(m.keys, key)
+	}
+	m.vals[key] = value
+}
+
+func (m *Map) LoadOrStore(key, value any) (any, bool) {
+	if s := m.pt("Map.LoadOrStore"); s == nil {
+		return m.real.LoadOrStore(key, value)
+	}
+	if v, ok := m.vals[key]; ok {
+		return v, true
+	}
+	if m.vals == nil {
+		m.vals = map[any]any{}
+	}
+	m.keys = append(m.keys, key)
+	m.vals[key] = value
+	return value, false
+}
+
+func (m *Map) LoadAndDelete(key any) (any, bool) {
+	if s := m.pt("Map.LoadAndDelete"); s == nil {
+		return m.real.LoadAndDelete(key)
+	}
+	v, ok := m.vals[key]
+	if ok {
+		m.del(key)
+	}
+	return v, ok
+}
+
+func (m *Map) del(key any) {
+	delete(m.vals, key)
+	for i, k := range m.keys {
+		if k == key {
+			m.keys = append(m.keys[:i:i], m.keys[i+1:]...)
+			break
+		}
+	}
+}
+
+func (m *Map) Delete(key any) {
+	if s := m.pt("Map.Delete"); s == nil {
+		m.real.Delete(key)
+		return
+	}
+	m.del(key)
+}
+
+func (m *Map) Range(f func(key, value any) bool) {
+	if s := m.pt("Map.Range"); s == nil {
+		m.real.Range(f)
+		return
+	}
+	for _, k := range append([]any(nil), m.keys...) {
+		v, ok := m.vals[k]
+		if !ok {
+			continue
+		}
+		if !f(k, v) {
+			return
+		}
+	}
+}
